@@ -206,6 +206,12 @@ def r2_octave(ctx):
         high = F.forced(cond_f, thr, False)
         parts = _concat_parts(val)
         if not parts or parts[0][0] != 'rep':
+            calls_ = [c_ for c_ in ast.walk(val) if isinstance(c_, ast.Call)]
+            glue_ = [c_ for c_ in calls_ if (F.constructed_class(ctx, c_, exp) is not None
+                                             and F.constructed_class(ctx, c_, exp).qualname not in ctx.prog.normalizer.known)]
+            if glue_:
+                raise AnalysisError(f'{at}: export_pitch assembles the text in an object of the new class `{src(glue_[0].func)}` '
+                                    f'(its __str__): not followed')
             ctx.violation('R2', at, exp.qualname, 'exporter-shape', f'returns `{src(val)[:90]}`, expected letter * count + accidentals')
             continue
         _, base, count = parts[0]
